@@ -21,14 +21,19 @@ from .. import known
 ID = 'C16'
 LEVEL = 'exploration'
 RULE = (
-    'Hypothesis: 1-D coordinate of n=2..8 dyadic rationals (multiples of '
+    'Hypothesis: 1-D coordinate of n=2..40 (70% 2-8, 20% 9-20, 10% 21-40) '
+    'dyadic rationals (multiples of '
     '1/4), ascending or descending, uniform or non-uniform, stored f8, f4 or '
     '(scaled to whole numbers) i4; '
     'bounds representation none / 1-D edges (n+1) / n x 2 (edges at '
     '1/4,1/2,3/4 of each gap, outer edges beyond the end centres; found via '
     '<dim>_bounds, <dim>_bnds or the bounds attribute); method nearest / '
     'bounds / exact x bounds ignore / warn / error x clean none / mask x '
-    'left,right in {None, nan}; 1-10 queries (array or scalar) drawn from: '
+    'left,right in {None, nan}; 1-30 queries (array or scalar; 5/6 of the '
+    'cases 1-10, 1/6 11-24 distinct picks; in 2/3 of the array cases 1-12 of '
+    'the picked values are deliberately repeated at arbitrary positions - '
+    'centres, non-centres and out-of-range values alike, every method) '
+    'drawn from: '
     'every centre, edge, midpoint, nextafter on both sides of each of them, '
     'just outside and far outside both ends, interior dyadic points.  A '
     'fresh in-memory file is built for every call.  quick also enumerates '
@@ -101,7 +106,17 @@ def _pool(coord, edges):
 
 @st.composite
 def coords(draw, nmin=2, nmax=8):
-    n = draw(st.integers(nmin, nmax))
+    # most cases small (shrinkable, cheap); a fixed share of long coordinates
+    # (up to 40 points) so that size-dependent code paths in numpy / the
+    # library (sort-based membership, searchsorted) are reached
+    size = draw(st.sampled_from(['small'] * 7 + ['medium', 'medium',
+                                                  'long']))
+    if size == 'small':
+        n = draw(st.integers(nmin, nmax))
+    elif size == 'medium':
+        n = draw(st.integers(9, 20))
+    else:
+        n = draw(st.integers(21, 40))
     start = draw(st.integers(-40, 40)) * Q
     uniform = draw(st.booleans())
     if uniform:
@@ -138,6 +153,28 @@ def edges_for(draw, c):
     return [first] + e + [last]
 
 
+def _with_repeats(draw, idx, kmax=30):
+    """deliberately repeat some of the chosen query entries (array lookups
+    with duplicated values), inserted at arbitrary positions"""
+    if len(idx) < 1 or draw(st.integers(0, 2)) == 0:
+        return idx
+    nrep = draw(st.integers(1, max(1, min(12, kmax - len(idx)))))
+    idx = list(idx)
+    for _ in range(nrep):
+        if len(idx) >= kmax:
+            break
+        src = idx[draw(st.integers(0, len(idx) - 1))]
+        idx.insert(draw(st.integers(0, len(idx))), src)
+    return idx
+
+
+def _nqueries(draw, small_max):
+    """mostly short query arrays, a share of long ones (up to 30)"""
+    if draw(st.integers(0, 5)) == 0:
+        return draw(st.integers(small_max + 1, 24))
+    return draw(st.integers(1, small_max))
+
+
 @st.composite
 def cases(draw, tier='quick'):
     kind = draw(st.sampled_from(['val'] * 7 + ['time']))
@@ -170,14 +207,15 @@ def cases(draw, tier='quick'):
         for x in allc + mids:
             pool += [x, x - 1 / 64., x + 1 / 64.]
         pool += [min(allc) - 50, max(allc) + 50]
-        k = draw(st.integers(1, 8))
+        k = _nqueries(draw, 8)
         idx = draw(st.lists(st.integers(0, len(pool) - 1), min_size=k,
                             max_size=k))
+        idx = _with_repeats(draw, idx)
         spec['queries'] = [pool[i] for i in idx]
         spec['scalar'] = False
         return spec
     pool = _pool(c, edges)
-    k = draw(st.integers(1, 10))
+    k = _nqueries(draw, 10)
     # inside-only cases keep bounds=error / warn paths reachable
     inside_only = draw(st.integers(0, 2)) == 0
     if inside_only:
@@ -189,8 +227,11 @@ def cases(draw, tier='quick'):
         outs = [i for i, p in enumerate(pool) if p[1] in ('outside',
                                                           'ext-edge')]
         idx[draw(st.integers(0, k - 1))] = draw(st.sampled_from(outs))
+    scalar = (k == 1 and draw(st.booleans()))
+    if not scalar:
+        idx = _with_repeats(draw, idx)
     spec['queries'] = [pool[i][0] for i in idx]
-    spec['scalar'] = (k == 1 and draw(st.booleans()))
+    spec['scalar'] = scalar
     return spec
 
 
@@ -290,6 +331,26 @@ def call(spec):
 
 
 # ------------------------------------------------------------------ oracle
+def _hull(c, spec, code):
+    """widest reading of the domain: centres, bounds variable, half-cell
+    extension"""
+    vals = [c.min(), c.max()]
+    if spec['bkind'] != 'none':
+        e = np.array(spec['edges'], dtype='d' if code == 'i' else code)
+        vals += [float(e.min()), float(e.max())]
+    else:
+        vals += [c[0] - (c[1] - c[0]) / 2, c[-1] + (c[-1] - c[-2]) / 2]
+    return min(vals), max(vals)
+
+
+def hlo_pre(c, spec, code):
+    return _hull(c, spec, code)[0]
+
+
+def hhi_pre(c, spec, code):
+    return _hull(c, spec, code)[1]
+
+
 def check_case(spec):
     r = Result()
     code = {'f8': 'd', 'f4': 'f', 'i4': 'i'}[spec['cdtype']]
@@ -344,6 +405,18 @@ def check_case(spec):
         r.label('bname:' + spec['bname'])
     if spec.get('scalar'):
         r.label('scalar-query')
+    r.label('n:2-8' if n <= 8 else ('n:9-20' if n <= 20 else 'n:21-40'))
+    r.label('nq:1-10' if q.size <= 10 else 'nq:11-30')
+    uq, cnt = np.unique(q, return_counts=True)
+    for v in uq[cnt > 1]:
+        if v < hlo_pre(c, spec, code) or v > hhi_pre(c, spec, code):
+            r.label('repeat:out-of-range')
+        elif (c == v).any():
+            r.label('repeat:centre')
+        else:
+            r.label('repeat:in-range-non-centre')
+    if not (cnt > 1).any():
+        r.label('repeat:none')
     special = np.concatenate([c, E if hasb else (c[:-1] + c[1:]) / 2,
                               (c[:-1] + c[1:]) / 2])
     near = False
